@@ -159,6 +159,16 @@ def check(run, prog, tier):
     rem = [e for e in effs if e.kind == "state" and e.what[0] == TS and e.what[2] == "-"]
     run.ob("R1", f"{cl.qual}:drops-everything", bool(stops) and bool(rem) and all(e.wave == 0 for e in stops), loc(cl),
            f"connection loss removes all found services ({len(rem)} removal site(s)) and reports them stopped ({len(stops)} site(s))")
+    # ... and the loss of the transport reaches it: adapter -> protocol -> discovery
+    pcl = cx.m(PROTO, "connection_lost")
+    effs = cx.effects(pcl.qual, PROTO)
+    stops = [e for e in effs if e.kind == "notify" and e.what == "stopped"]
+    run.ob("R1", f"{pcl.qual}:reaches-stopped", bool(stops), loc(pcl),
+           f"connection loss at the SD endpoint reaches service_stopped ({len(stops)} site(s), +{min((e.wave for e in stops), default=0)} iteration(s))"
+           if stops else "BROKEN LINK: connection loss at the SD endpoint never reaches the discovery's found services")
+    ad = cx.m("sd.DatagramProtocolAdapter", "connection_lost")
+    fwd = [e for e in cx.scan.events(ad.qual) if e.kind == "call" and e.attrname == "connection_lost" and e.recv == ("attr", ("self", "sd.DatagramProtocolAdapter"), "protocol") and not e.sched]
+    run.ob("R1", f"{ad.qual}:forwards-to-protocol", len(fwd) == 1, loc(ad), "the transport adapter hands connection_lost to its protocol")
     ho = cx.m(DISC, "handle_offer")
     eng = engine(prog, NoInline())
     ent = P(ho, param_at(ho, 0, "entry"))
